@@ -60,6 +60,7 @@ def iE : Expr → List Item
   | .field a => kwI "field" :: .sp :: iE a
   | .call f as => .tk (.id f) :: .tk (.p .lp) :: (iArgs as ++ [.tk (.p .rp)])
   | .list as => .tk (.p .lb) :: (iArgs as ++ [.tk (.p .rb)])
+  | .plist as => if as.isEmpty then [.tk (.p .lb), .tk (.p .colon), .tk (.p .rb)] else .tk (.p .lb) :: (iPairs as ++ [.tk (.p .rb)])
   | .key v => [kwI "the", .sp, .tk (.id v)]
   | .movie v => [kwI "the", .sp, .tk (.id v)]
   | .the .sys k [] => [kwI "the", .sp, .tk (.id (nameOrUnknown tblSys k))]
@@ -72,7 +73,8 @@ def iE : Expr → List Item
        | some (op, r) =>
          if op = S "last" then [kwI "the", .sp, kwI "last", .sp, .tk (.id ((chunkTy r).getD [])), .sp, kwI "of", .sp] ++ iE e
          else [kwI "the", .sp, kwI "number", .sp, kwI "of", .sp, .tk (.id ((chunkTy r).getD [] ++ ['s'])), .sp, kwI "of", .sp] ++ iE e
-       | none => [])
+       | none =>
+         if t = .field then [kwI "the", .sp, .tk (.id (nameOrUnknown tblCast k)), .sp, kwI "of", .sp, kwI "field", .sp] ++ iE e else [])
   | .oprop v o => [kwI "the", .sp, .tk (.id v), .sp, kwI "of", .sp] ++ iE o
   | .chunk k a b d =>
     [kwI k.tag, .sp] ++ (iE a ++ ((if isZero b then [] else [.sp, kwI "to", .sp] ++ iE b) ++ ([.sp, kwI "of", .sp] ++ iE d)))
@@ -81,6 +83,11 @@ def iArgs : List Expr → List Item
   | [] => []
   | [e] => iE e
   | e :: e2 :: es => iE e ++ (.tk (.p .comma) :: .sp :: iArgs (e2 :: es))
+def iPairs : List Expr → List Item
+  | [] => []
+  | [k] => iE k
+  | [k, v] => iE k ++ (.tk (.p .colon) :: .sp :: iE v)
+  | k :: v :: k2 :: rest => iE k ++ (.tk (.p .colon) :: .sp :: (iE v ++ (.tk (.p .comma) :: .sp :: iPairs (k2 :: rest))))
 end
 
 theorem plain_safeStr (v : Spec.Name) (h : ∀ c ∈ v, plainCharB c = true) : safeStr v = true := by
@@ -111,6 +118,7 @@ theorem optok_text (o : BinOp) (h : o ≠ .starts) : Item.text (.tk o.tok) = opT
 
 theorem optok_ok (o : BinOp) : ItemOk (.tk o.tok) = true := by cases o <;> decide
 
+theorem safe_colon : safeCh ':' = true := by decide
 theorem safe_sp : safeCh ' ' = true := by decide
 theorem safe_rp : safeCh ')' = true := by decide
 theorem safe_nl : safeCh '\n' = true := by decide
@@ -139,6 +147,10 @@ theorem iE_strThe (t : Tbl) (k : Nat) (e : Expr) (op : Str) (r : Nat) (ty : Str)
     iE (.the t k [e]) = (if op = S "last" then [kwI "the", .sp, kwI "last", .sp, .tk (.id ty), .sp, kwI "of", .sp] ++ iE e
       else [kwI "the", .sp, kwI "number", .sp, kwI "of", .sp, .tk (.id (ty ++ ['s'])), .sp, kwI "of", .sp] ++ iE e) := by
   simp only [iE, ht, hst, hty, Option.getD_some]
+
+theorem iE_fieldThe (k : Nat) (e : Expr) :
+    iE (.the .field k [e]) = [kwI "the", .sp, .tk (.id (nameOrUnknown tblCast k)), .sp, kwI "of", .sp, kwI "field", .sp] ++ iE e := by
+  simp only [iE, theTbl, strThe, if_true]
 
 theorem tbl_idOk (tb : List (Nat × String)) (hall : tb.all (fun x => idOk (nameOrUnknown tb x.1)) = true) (k : Nat)
     (h : tb.any (fun x => x.1 == k) = true) : idOk (nameOrUnknown tb k) = true := by
@@ -226,7 +238,13 @@ theorem render_iE : ∀ (e : Expr), FragE e = true → render (iE e) = mE e
     simp only [FragE] at hf
     simp only [iE, render_cons, render_append, render_iArgs as hf, mE]
     simp [render, Item.text, S, P.text]
-  | .plist _, hf => by simp [FragE] at hf
+  | .plist as, hf => by
+    simp only [FragE, Bool.and_eq_true] at hf
+    cases hemp : as.isEmpty with
+    | true => simp [iE, mE, hemp, render, Item.text, S, P.text]
+    | false =>
+      simp only [iE, mE, hemp, Bool.false_eq_true, if_false, render_cons, render_append, render_iPairs as hf.1]
+      simp [render, Item.text, S, P.text]
   | .the t k as, hf => by
     cases as with
     | cons x xs =>
@@ -235,9 +253,12 @@ theorem render_iE : ∀ (e : Expr), FragE e = true → render (iE e) = mE e
       | nil =>
         have hfx : FragE x = true := by simp only [FragE, Bool.and_eq_true] at hf; exact hf.2
         have ih := render_iE x hfx
-        rcases mE_the1 t k x hf with ⟨cls, tb, w, ht, _, _, hm⟩ | ⟨op, r, ty, ht, hst, hty, hm⟩
+        rcases mE_the1 t k x hf with ⟨cls, tb, w, ht, _, _, hm⟩ | ⟨op, r, ty, ht, hst, hty, hm⟩ | ⟨rfl, _, hm⟩
         · rw [hm]
           simp [iE, ht, render_append, render_cons, ih, Item.text, kwI, S, render_nil]
+        rotate_left
+        · rw [hm, iE_fieldThe]
+          simp [render_append, render_cons, ih, Item.text, kwI, S, render_nil]
         · rw [hm, iE_strThe t k x op r ty ht hst hty]
           rcases strThe_op t k op r hst with rfl | rfl
           · have hne : ¬ (S "number" = S "last") := by decide
@@ -251,7 +272,7 @@ theorem render_iE : ∀ (e : Expr), FragE e = true → render (iE e) = mE e
     simp [iE, mE, render_append, render_cons, render_iE o hf.2, Item.text, kwI, S, render_nil]
   | .chunk k a b d, hf => by
     simp only [FragE, Bool.and_eq_true, Bool.not_eq_true'] at hf
-    obtain ⟨⟨⟨⟨hfa, _⟩, hfb⟩, hfd⟩, _⟩ := hf
+    obtain ⟨⟨⟨hfa, _⟩, hfb⟩, hfd⟩ := hf
     cases hz : isZero b <;>
       simp [iE, mE, hz, render_append, render_cons, render_iE a hfa, render_iE b hfb, render_iE d hfd, Item.text, kwI, S, render_nil]
 theorem render_iArgs : ∀ (as : List Expr), FragL as = true → render (iArgs as) = mArgs as
@@ -263,6 +284,20 @@ theorem render_iArgs : ∀ (as : List Expr), FragL as = true → render (iArgs a
     simp only [FragL, Bool.and_eq_true] at hf
     have ih := render_iArgs (e2 :: es) (by simp only [FragL, Bool.and_eq_true]; exact hf.2)
     simp only [iArgs, render_append, render_cons, render_iE e hf.1, ih, mArgs]
+    simp [Item.text, S, P.text]
+theorem render_iPairs : ∀ (as : List Expr), FragL as = true → render (iPairs as) = mPairs as
+  | [], _ => rfl
+  | [k], hf => by
+    simp only [FragL, Bool.and_eq_true] at hf
+    simp only [iPairs, render_iE k hf.1, mPairs]
+  | [k, v], hf => by
+    simp only [FragL, Bool.and_eq_true] at hf
+    simp only [iPairs, render_append, render_cons, render_iE k hf.1, render_iE v hf.2.1, mPairs]
+    simp [Item.text, S, P.text]
+  | k :: v :: k2 :: rest, hf => by
+    simp only [FragL, Bool.and_eq_true] at hf
+    have ih := render_iPairs (k2 :: rest) (by simp only [FragL, Bool.and_eq_true]; exact hf.2.2)
+    simp only [iPairs, render_append, render_cons, render_iE k hf.1, render_iE v hf.2.1, ih, mPairs]
     simp [Item.text, S, P.text]
 end
 
@@ -304,7 +339,11 @@ theorem itoks_iE : ∀ (e : Expr), FragE e = true → itoks (iE e) = prE e
   | .list as, hf => by
     simp only [FragE] at hf
     simp [iE, itoks, itoks_append, itoks_iArgs as hf, prE]
-  | .plist _, hf => by simp [FragE] at hf
+  | .plist as, hf => by
+    simp only [FragE, Bool.and_eq_true] at hf
+    cases hemp : as.isEmpty with
+    | true => simp [iE, hemp, itoks, prE]
+    | false => simp [iE, hemp, itoks, itoks_append, itoks_iPairs as hf.1, prE]
   | .the t k as, hf => by
     cases as with
     | cons x xs =>
@@ -313,10 +352,13 @@ theorem itoks_iE : ∀ (e : Expr), FragE e = true → itoks (iE e) = prE e
       | nil =>
         have hfx : FragE x = true := by simp only [FragE, Bool.and_eq_true] at hf; exact hf.2
         have ih := itoks_iE x hfx
-        rcases mE_the1 t k x hf with ⟨cls, tb, w, ht, _, _, _⟩ | ⟨op, r, ty, ht, hst, hty, _⟩
+        rcases mE_the1 t k x hf with ⟨cls, tb, w, ht, _, _, _⟩ | ⟨op, r, ty, ht, hst, hty, _⟩ | ⟨rfl, _, _⟩
         · cases t <;> simp [theTbl] at ht <;>
           · obtain ⟨_, rfl, rfl⟩ := ht
             simp [iE, theTbl, itoks, itoks_append, ih, prE, prThe, kwI, kw]
+        rotate_left
+        · rw [iE_fieldThe]
+          simp [itoks, itoks_append, ih, prE, prThe, kwI, kw]
         · rw [iE_strThe t k x op r ty ht hst hty]
           obtain ⟨c, hc, rfl⟩ := chunkTy_spec r ty hty
           cases t <;> simp [strThe] at hst
@@ -340,7 +382,7 @@ theorem itoks_iE : ∀ (e : Expr), FragE e = true → itoks (iE e) = prE e
     simp [iE, itoks, itoks_append, itoks_iE o hf.2, prE, kwI, kw]
   | .chunk k a b d, hf => by
     simp only [FragE, Bool.and_eq_true, Bool.not_eq_true'] at hf
-    obtain ⟨⟨⟨⟨hfa, _⟩, hfb⟩, hfd⟩, _⟩ := hf
+    obtain ⟨⟨⟨hfa, _⟩, hfb⟩, hfd⟩ := hf
     have iha := itoks_iE a hfa
     have ihb := itoks_iE b hfb
     have ihd := itoks_iE d hfd
@@ -357,6 +399,19 @@ theorem itoks_iArgs : ∀ (as : List Expr), FragL as = true → itoks (iArgs as)
     simp only [FragL, Bool.and_eq_true] at hf
     have ih := itoks_iArgs (e2 :: es) (by simp only [FragL, Bool.and_eq_true]; exact hf.2)
     simp only [iArgs, itoks_append, itoks, itoks_iE e hf.1, ih, prArgs]
+theorem itoks_iPairs : ∀ (as : List Expr), FragL as = true → itoks (iPairs as) = prPairs as
+  | [], _ => rfl
+  | [k], hf => by
+    simp only [FragL, Bool.and_eq_true] at hf
+    simp only [iPairs, itoks_iE k hf.1, prPairs]
+  | [k, v], hf => by
+    simp only [FragL, Bool.and_eq_true] at hf
+    simp only [iPairs, itoks_append, itoks, itoks_iE k hf.1, itoks_iE v hf.2.1, prPairs]
+  | k :: v :: k2 :: rest, hf => by
+    simp only [FragL, Bool.and_eq_true] at hf
+    have ih := itoks_iPairs (k2 :: rest) (by simp only [FragL, Bool.and_eq_true]; exact hf.2.2)
+    simp only [iPairs, itoks_append, itoks, itoks_iE k hf.1, itoks_iE v hf.2.1, ih, prPairs]
+    simp [List.append_assoc]
 end
 
 theorem mE_ne_nil : ∀ (e : Expr), FragE e = true → mE e ≠ []
@@ -379,7 +434,7 @@ theorem mE_ne_nil : ∀ (e : Expr), FragE e = true → mE e ≠ []
   | .call f as, _ => by simp [mE, S]
   | .mcall _ _ _, hf => by simp [FragE] at hf
   | .list _, _ => by simp [mE, S]
-  | .plist _, hf => by simp [FragE] at hf
+  | .plist as, _ => by cases h : as.isEmpty <;> simp [mE, h, S]
   | .the t k as, hf => by
     cases as with
     | cons x xs =>
@@ -487,7 +542,16 @@ theorem chain_iE : ∀ (e : Expr), FragE e = true → ∀ (rest : List Char), Sa
     have hv := chain_iArgs as hf (render [.tk (.p .rb)] ++ rest) ⟨']', rest, rfl, safe_rb⟩
     rw [chain_append, hv]
     simp [Chain, okNext]
-  | .plist _, hf, _, _ => by simp [FragE] at hf
+  | .plist as, hf, rest, h => by
+    simp only [FragE, Bool.and_eq_true] at hf
+    cases hemp : as.isEmpty with
+    | true => simp [iE, hemp, Chain, okNext]
+    | false =>
+      simp only [iE, hemp, Bool.false_eq_true, if_false, Chain, Bool.and_eq_true]
+      refine ⟨rfl, ?_⟩
+      have hv := chain_iPairs as hf.1 (render [.tk (.p .rb)] ++ rest) ⟨']', rest, rfl, safe_rb⟩
+      rw [chain_append, hv]
+      simp [Chain, okNext]
   | .the t k as, hf, rest, h => by
     cases as with
     | cons x xs =>
@@ -496,11 +560,17 @@ theorem chain_iE : ∀ (e : Expr), FragE e = true → ∀ (rest : List Char), Sa
       | nil =>
         have hfe : FragE x = true := by simp only [FragE, Bool.and_eq_true] at hf; exact hf.2
         have ih := chain_iE x hfe rest h
-        rcases mE_the1 t k x hf with ⟨cls, tb, w, ht, htk, _, _⟩ | ⟨op, r, ty, ht, hst, hty, _⟩
+        rcases mE_the1 t k x hf with ⟨cls, tb, w, ht, htk, _, _⟩ | ⟨op, r, ty, ht, hst, hty, _⟩ | ⟨rfl, htk, _⟩
         · obtain ⟨h1, h2⟩ := obj_idOk t cls tb w ht k htk
           simp only [iE, ht, List.cons_append, List.nil_append]
           rw [chain_cons_sp _ _ _ (by decide), chain_cons_sp _ _ _ (by simpa [ItemOk] using h1), chain_cons_sp _ _ _ (by decide),
             chain_cons_sp _ _ _ h2, ih]
+        rotate_left
+        · have h1 := tbl_idOk tblCast (by decide +kernel) k htk
+          rw [iE_fieldThe]
+          simp only [List.cons_append, List.nil_append]
+          rw [chain_cons_sp _ _ _ (by decide), chain_cons_sp _ _ _ (by simpa [ItemOk] using h1), chain_cons_sp _ _ _ (by decide),
+            chain_cons_sp _ _ _ (by decide), ih]
         · rw [iE_strThe t k x op r ty ht hst hty]
           obtain ⟨c, hc, rfl⟩ := chunkTy_spec r ty hty
           have hi1 : ItemOk (.tk (.id c.tag.toList)) = true := by cases c <;> decide
@@ -527,7 +597,7 @@ theorem chain_iE : ∀ (e : Expr), FragE e = true → ∀ (rest : List Char), Sa
     rw [chain_cons_sp _ _ _ (by decide), chain_cons_sp _ _ _ (by simpa [ItemOk] using hf.1.1), chain_cons_sp _ _ _ (by decide), ih]
   | .chunk k a b d, hf, rest, h => by
     simp only [FragE, Bool.and_eq_true, Bool.not_eq_true'] at hf
-    obtain ⟨⟨⟨⟨hfa, _⟩, hfb⟩, hfd⟩, _⟩ := hf
+    obtain ⟨⟨⟨hfa, _⟩, hfb⟩, hfd⟩ := hf
     have hk : ItemOk (kwI k.tag) = true := by cases k <;> decide
     have hd := chain_iE d hfd rest h
     have htail : Chain ([.sp, kwI "of", .sp] ++ iE d) rest = true := by
@@ -555,6 +625,29 @@ theorem chain_iArgs : ∀ (as : List Expr), FragL as = true → ∀ (rest : List
     have ih := chain_iArgs (e2 :: es) (by simp only [FragL, Bool.and_eq_true]; exact hf.2) rest h
     simp only [iArgs]
     rw [chain_append, chain_iE e hf.1 _ ⟨',', render (.sp :: iArgs (e2 :: es)) ++ rest, by simp [render, Item.text, P.text], safe_comma⟩]
+    simp only [Chain, Bool.and_eq_true, Bool.true_and]
+    exact ⟨okNext_safe (.tk (.p .comma)) ' ' _ (by decide) safe_sp, rfl, ih⟩
+theorem chain_iPairs : ∀ (as : List Expr), FragL as = true → ∀ (rest : List Char), SafeHd rest → Chain (iPairs as) rest = true
+  | [], _, _, _ => rfl
+  | [k], hf, rest, h => by
+    simp only [FragL, Bool.and_eq_true] at hf
+    simp only [iPairs]
+    exact chain_iE k hf.1 rest h
+  | [k, v], hf, rest, h => by
+    simp only [FragL, Bool.and_eq_true] at hf
+    simp only [iPairs]
+    rw [chain_append, chain_iE k hf.1 _ ⟨':', render (.sp :: iE v) ++ rest, by simp [render, Item.text, P.text], safe_colon⟩]
+    simp only [Chain, Bool.and_eq_true, Bool.true_and]
+    exact ⟨by simp [okNext], rfl, chain_iE v hf.2.1 rest h⟩
+  | k :: v :: k2 :: rs, hf, rest, h => by
+    simp only [FragL, Bool.and_eq_true] at hf
+    have ih := chain_iPairs (k2 :: rs) (by simp only [FragL, Bool.and_eq_true]; exact hf.2.2) rest h
+    simp only [iPairs]
+    rw [chain_append, chain_iE k hf.1 _ ⟨':', render (.sp :: (iE v ++ (.tk (.p .comma) :: .sp :: iPairs (k2 :: rs)))) ++ rest,
+      by simp [render, Item.text, P.text], safe_colon⟩]
+    simp only [Chain, Bool.and_eq_true, Bool.true_and]
+    refine ⟨by simp [okNext], rfl, ?_⟩
+    rw [chain_append, chain_iE v hf.2.1 _ ⟨',', render (.sp :: iPairs (k2 :: rs)) ++ rest, by simp [render, Item.text, P.text], safe_comma⟩]
     simp only [Chain, Bool.and_eq_true, Bool.true_and]
     exact ⟨okNext_safe (.tk (.p .comma)) ' ' _ (by decide) safe_sp, rfl, ih⟩
 end
@@ -597,6 +690,107 @@ theorem chain_indent (ind : Nat) (l : List Item) (rest : List Char) : Chain (iIn
   | zero => rfl
   | succ n ih => simp [List.replicate_succ, chain_sp, ih]
 
+/-! ### the condition of `repeat while`: outer parentheses of an infix operation stripped -/
+
+def iCond : Expr → List Item
+  | .bin op a b => if op.isInfix then iE a ++ ([.sp, .tk op.tok, .sp] ++ iE b) else iE (.bin op a b)
+  | e => iE e
+
+theorem stripParens_paren (x : Str) : Lscr.stripParens ('(' :: (x ++ [')'])) = x := by
+  unfold Lscr.stripParens pySlice
+  have h1 : ¬ ((1 : Int) < 0) := by omega
+  have h2 : ((-1 : Int) < 0) := by omega
+  have hn : ((('(' :: (x ++ [')'])).length : Nat) : Int) = (x.length : Int) + 2 := by simp; omega
+  simp only [h1, h2, if_false, if_true, hn]
+  have ea : (min (1 : Int) ((x.length : Int) + 2)).toNat = 1 := by omega
+  have eb : (max (-1 + ((x.length : Int) + 2)) 0).toNat = x.length + 1 := by omega
+  rw [ea, eb]
+  simp
+
+theorem mE_not_lp' (e : Expr) (hf : FragE e = true) (hn : notInfix e = true) : startsWith (mE e) (S "(") = false := by
+  have hid : ∀ v : Spec.Name, idOk v = true → ∀ r, startsWith (v ++ r) (S "(") = false := by
+    intro v hv r
+    cases v with
+    | nil => simp [idOk] at hv
+    | cons c cs =>
+      simp only [idOk, Bool.and_eq_true] at hv
+      have : c ≠ '(' := by
+        intro e; subst e
+        have : isIdStart '(' = false := by decide
+        rw [this] at hv; simp at hv
+      simp only [startsWith, S]
+      simp [List.isPrefixOf]
+      exact fun e => this e.symm
+  cases e with
+  | int k =>
+    obtain ⟨c, rest, h, hd, _, _⟩ := natStr_head k
+    have : c ≠ '(' := by
+      intro e; subst e
+      have : isAsciiDigit '(' = false := by decide
+      rw [this] at hd; cases hd
+    simp only [mE, h, startsWith, S]
+    simp [List.isPrefixOf]
+    exact fun e => this e.symm
+  | var k v =>
+    simp only [FragE] at hf
+    simpa [mE] using hid v hf []
+  | un o a => cases o <;> simp [mE, startsWith, S, List.isPrefixOf]
+  | bin o a b =>
+    simp only [notInfix, Bool.not_eq_true'] at hn
+    simp [mE, hn, startsWith, S, List.isPrefixOf]
+  | field a => simp [mE, startsWith, S, List.isPrefixOf]
+  | call f as =>
+    simp only [FragE, Bool.and_eq_true] at hf
+    simpa [mE] using hid f hf.1.1.1.1 _
+  | list as => simp [mE, startsWith, S, List.isPrefixOf]
+  | plist as => cases h : as.isEmpty <;> simp [mE, h, startsWith, S, List.isPrefixOf]
+  | str v => simp [mE, startsWith, S, List.isPrefixOf]
+  | sym v => simp [mE, startsWith, S, List.isPrefixOf]
+  | key v => simp [mE, startsWith, S, List.isPrefixOf]
+  | movie v => simp [mE, startsWith, S, List.isPrefixOf]
+  | oprop v o => simp [mE, startsWith, S, List.isPrefixOf]
+  | chunk k a b d => cases k <;> simp [mE, ChunkKind.tag, startsWith, S, List.isPrefixOf]
+  | the t k as =>
+    obtain ⟨r, hr⟩ := mE_the_head t k as hf
+    rw [hr]
+    simp [startsWith, S, List.isPrefixOf]
+  | _ => simp [FragE] at hf
+
+theorem optok_text' (o : BinOp) (h : o ≠ .starts) : Item.text (.tk o.tok) = opTxt o := by
+  cases o <;> first | rfl | exact absurd rfl h
+
+theorem render_iCond (c : Expr) (hf : FragE c = true) : render (iCond c) = mCond c := by
+  have hstd : iCond c = iE c → notInfix c = true → render (iCond c) = mCond c := by
+    intro e hn
+    rw [e, render_iE c hf]
+    unfold mCond
+    rw [mE_not_lp' c hf hn]
+    rfl
+  cases c with
+  | bin op a b =>
+    by_cases hop : op.isInfix = true
+    · simp only [FragE, Bool.and_eq_true, decide_eq_true_eq] at hf
+      obtain ⟨⟨ho, ha⟩, hb⟩ := hf
+      have hm : mE (.bin op a b) = '(' :: ((mE a ++ S " " ++ opTxt op ++ S " " ++ mE b) ++ [')']) := by
+        simp [mE, hop, S, List.append_assoc]
+      have hst : startsWith (mE (.bin op a b)) (S "(") = true := by rw [hm]; simp [startsWith, S, List.isPrefixOf]
+      unfold mCond
+      rw [hst, if_pos rfl, hm, stripParens_paren]
+      simp only [iCond, hop, if_true, render_append, render_cons, render_iE a ha, render_iE b hb, optok_text' op ho]
+      simp [render, Item.text, S, List.append_assoc]
+    · exact hstd (by simp [iCond, hop]) (by simp [notInfix, hop])
+  | _ => exact hstd rfl rfl
+
+theorem itoks_iCond (c : Expr) (hf : FragE c = true) : itoks (iCond c) = wCond c := by
+  cases c with
+  | bin op a b =>
+    by_cases hop : op.isInfix = true
+    · simp only [FragE, Bool.and_eq_true, decide_eq_true_eq] at hf
+      simp [iCond, wCond, hop, itoks_append, itoks, itoks_iE a hf.1.2, itoks_iE b hf.2]
+    · have := itoks_iE (.bin op a b) hf
+      simpa [iCond, wCond, hop] using this
+  | _ => simpa [iCond, wCond] using itoks_iE _ hf
+
 mutual
 def iS : Nat → Stmt → List Item
   | ind, .set lv v => iIndent ind ++ ([kwI "set", .sp] ++ (iE lv ++ ([.sp, .tk (.p .eq), .sp] ++ (iE v ++ [.tk .nl]))))
@@ -607,7 +801,7 @@ def iS : Nat → Stmt → List Item
       ((if e.isEmpty then [] else iIndent ind ++ ([kwI "else", .tk .nl] ++ iSs (ind + 1) e)) ++
         (iIndent ind ++ [kwI "end", .sp, kwI "if", .tk .nl]))))))
   | ind, .repeatWhile c b =>
-    iIndent ind ++ ([kwI "repeat", .sp, kwI "while", .sp] ++ (iE c ++ ([.tk .nl] ++ (iSs (ind + 1) b ++
+    iIndent ind ++ ([kwI "repeat", .sp, kwI "while", .sp] ++ (iCond c ++ ([.tk .nl] ++ (iSs (ind + 1) b ++
       (iIndent ind ++ [kwI "end", .sp, kwI "repeat", .tk .nl])))))
   | ind, .repeatWith v a b down body =>
     iIndent ind ++ ([kwI "repeat", .sp, kwI "with", .sp] ++ (iE v ++ ([.sp, .tk (.p .eq), .sp] ++ (iE a ++ ([.sp] ++
@@ -666,6 +860,21 @@ theorem chain_iE_then (e : Expr) (hf : FragE e = true) (c : Char) (hc : safeCh c
 
 theorem render_sp_head (Y : List Item) : ∃ r, render (.sp :: Y) = ' ' :: r := ⟨render Y, rfl⟩
 theorem render_nl_head (Y : List Item) : ∃ r, render (.tk .nl :: Y) = '\n' :: r := ⟨render Y, rfl⟩
+
+theorem chain_iCond_then (c : Expr) (hf : FragE c = true) (X : List Item) (rest : List Char)
+    (hX : ∃ r, render X = '\n' :: r) : Chain (iCond c ++ X) rest = Chain X rest := by
+  have hstd : iCond c = iE c → Chain (iCond c ++ X) rest = Chain X rest := by
+    intro e; rw [e]; exact chain_iE_then c hf '\n' safe_nl X rest hX
+  cases c with
+  | bin op a b =>
+    by_cases hop : op.isInfix = true
+    · simp only [FragE, Bool.and_eq_true, decide_eq_true_eq] at hf
+      obtain ⟨⟨ho, ha⟩, hb⟩ := hf
+      simp only [iCond, hop, if_true, List.append_assoc, List.cons_append, List.nil_append]
+      rw [chain_iE_then a ha ' ' safe_sp _ _ (render_sp_head _), chain_sp, chain_cons_sp _ _ _ (optok_ok op),
+        chain_iE_then b hb '\n' safe_nl X rest hX]
+    · exact hstd (by simp [iCond, hop])
+  | _ => exact hstd rfl
 
 theorem chain_iS (ind : Nat) (s : Stmt) (hf : FragS s = true) (l : List Item) (rest : List Char) :
     Chain (iS ind s ++ l) rest = Chain l rest := by
@@ -752,6 +961,7 @@ theorem mE_not_lp (e : Expr) (hf : FragE e = true) (hn : notInfix e = true) : st
     simp only [FragE, Bool.and_eq_true] at hf
     simpa [mE] using hid f hf.1.1.1.1 _
   | list as => simp [mE, startsWith, S, List.isPrefixOf]
+  | plist as => cases h : as.isEmpty <;> simp [mE, h, startsWith, S, List.isPrefixOf]
   | str v => simp [mE, startsWith, S, List.isPrefixOf]
   | sym v => simp [mE, startsWith, S, List.isPrefixOf]
   | key v => simp [mE, startsWith, S, List.isPrefixOf]
@@ -785,8 +995,8 @@ theorem render_iX : ∀ (s : Stmt), FragX s = true → ∀ (ind : Nat), render (
         Item.text, kwI, S, render_nil]
   | .repeatWhile c b, hf, ind => by
     simp only [FragX, Bool.and_eq_true] at hf
-    obtain ⟨⟨hc, hn⟩, hb⟩ := hf
-    simp [iS, mS, mCond_eq c hc hn, render_append, render_cons, render_indent, render_iE c hc, render_iXs b hb (ind + 1),
+    obtain ⟨hc, hb⟩ := hf
+    simp [iS, mS, render_append, render_cons, render_indent, render_iCond c hc, render_iXs b hb (ind + 1),
       Item.text, kwI, S, render_nil]
   | .repeatWith v a b down body, hf, ind => by
     cases v with
@@ -815,19 +1025,19 @@ theorem render_iXs : ∀ (ss : List Stmt), FragXs ss = true → ∀ (ind : Nat),
 end
 
 mutual
-theorem itoks_iX : ∀ (s : Stmt), FragX s = true → ∀ (ind : Nat), itoks (iS ind s) = prS s
-  | .set lv v, hf, ind => itoks_iS ind _ (by simpa only [FragX] using hf)
-  | .call f as, hf, ind => itoks_iS ind _ (by simpa only [FragX] using hf)
-  | .exit, _, ind => itoks_iS ind _ rfl
+theorem itoks_iX : ∀ (s : Stmt), FragX s = true → ∀ (ind : Nat), itoks (iS ind s) = prSW s
+  | .set lv v, hf, ind => by rw [itoks_iS ind _ (by simpa only [FragX] using hf)]; simp [prS, prSW]
+  | .call f as, hf, ind => by rw [itoks_iS ind _ (by simpa only [FragX] using hf)]; simp [prS, prSW]
+  | .exit, _, ind => by rw [itoks_iS ind _ rfl]; simp [prS, prSW]
   | .ifThen c t e, hf, ind => by
     simp only [FragX, Bool.and_eq_true] at hf
     obtain ⟨⟨hc, ht⟩, he⟩ := hf
     cases hee : e.isEmpty <;>
-      simp [iS, prS, hee, itoks_append, itoks_indent, itoks, itoks_iE c hc, itoks_iXs t ht (ind + 1), itoks_iXs e he (ind + 1), kwI, kw]
+      simp [iS, prSW, hee, itoks_append, itoks_indent, itoks, itoks_iE c hc, itoks_iXs t ht (ind + 1), itoks_iXs e he (ind + 1), kwI, kw]
   | .repeatWhile c b, hf, ind => by
     simp only [FragX, Bool.and_eq_true] at hf
-    obtain ⟨⟨hc, hn⟩, hb⟩ := hf
-    simp [iS, prS, itoks_append, itoks_indent, itoks, itoks_iE c hc, itoks_iXs b hb (ind + 1), kwI, kw]
+    obtain ⟨hc, hb⟩ := hf
+    simp [iS, prSW, itoks_append, itoks_indent, itoks, itoks_iCond c hc, itoks_iXs b hb (ind + 1), kwI, kw]
   | .repeatWith v a b down body, hf, ind => by
     cases v with
     | var k v =>
@@ -836,7 +1046,7 @@ theorem itoks_iX : ∀ (s : Stmt), FragX s = true → ∀ (ind : Nat), itoks (iS
         simp only [FragX, Bool.and_eq_true] at hf
         obtain ⟨⟨⟨hv, ha⟩, hb⟩, hbody⟩ := hf
         cases down <;>
-          simp [iS, iE, prS, prE, itoks_append, itoks_indent, itoks, itoks_iE a ha, itoks_iE b hb, itoks_iXs body hbody (ind + 1), kwI, kw]
+          simp [iS, iE, prSW, prE, itoks_append, itoks_indent, itoks, itoks_iE a ha, itoks_iE b hb, itoks_iXs body hbody (ind + 1), kwI, kw]
       | _ => simp [FragX] at hf
     | _ => simp [FragX] at hf
   | .put .., hf, _ => by simp [FragX] at hf
@@ -846,11 +1056,11 @@ theorem itoks_iX : ∀ (s : Stmt), FragX s = true → ∀ (ind : Nat), itoks (iS
   | .tell .., hf, _ => by simp [FragX] at hf
   | .repeatIn .., hf, _ => by simp [FragX] at hf
   | .exitRepeat, hf, _ => by simp [FragX] at hf
-theorem itoks_iXs : ∀ (ss : List Stmt), FragXs ss = true → ∀ (ind : Nat), itoks (iSs ind ss) = prSs ss
+theorem itoks_iXs : ∀ (ss : List Stmt), FragXs ss = true → ∀ (ind : Nat), itoks (iSs ind ss) = prSsW ss
   | [], _, _ => rfl
   | s :: ss, hf, ind => by
     simp only [FragXs, Bool.and_eq_true] at hf
-    simp only [iSs, itoks_append, itoks_iX s hf.1 ind, itoks_iXs ss hf.2 ind, prSs]
+    simp only [iSs, itoks_append, itoks_iX s hf.1 ind, itoks_iXs ss hf.2 ind, prSsW]
 end
 
 mutual
@@ -875,9 +1085,9 @@ theorem chain_iX : ∀ (s : Stmt), FragX s = true → ∀ (ind : Nat) (l : List 
         chain_cons_nl _ _ _ (by decide), chain_iXs t ht, chain_indent, chain_cons_nl _ _ _ (by decide), chain_iXs e he, hend]
   | .repeatWhile c b, hf, ind, l, rest => by
     simp only [FragX, Bool.and_eq_true] at hf
-    obtain ⟨⟨hc, hn⟩, hb⟩ := hf
+    obtain ⟨hc, hb⟩ := hf
     simp only [iS, List.append_assoc, List.cons_append, List.nil_append, chain_indent]
-    rw [chain_cons_sp _ _ _ (by decide), chain_cons_sp _ _ _ (by decide), chain_iE_then c hc '\n' safe_nl _ _ (render_nl_head _),
+    rw [chain_cons_sp _ _ _ (by decide), chain_cons_sp _ _ _ (by decide), chain_iCond_then c hc _ _ (render_nl_head _),
       chain_nl, chain_iXs b hb, chain_indent, chain_cons_sp _ _ _ (by decide), chain_cons_nl _ _ _ (by decide)]
   | .repeatWith v a b down body, hf, ind, l, rest => by
     cases v with
@@ -923,11 +1133,20 @@ end
     printer's tokens, and are properly delimited -/
 structure BodyLex (body : List Stmt) : Prop where
   render : render (iSs 1 body) = mSs 1 body
-  itoks : itoks (iSs 1 body) = prSs body
+  itoks : itoks (iSs 1 body) = prSsW body
   chain : ∀ (l : List Item) (rest : List Char), Chain (iSs 1 body ++ l) rest = Chain l rest
 
+/-- without a `repeat while` the two printers agree -/
+theorem prSsW_flat : ∀ (ss : List Stmt), FragSs ss = true → prSsW ss = prSs ss
+  | [], _ => rfl
+  | s :: ss, h => by
+    simp only [FragSs, Bool.and_eq_true] at h
+    have ih := prSsW_flat ss h.2
+    have e : prSW s = prS s := by cases s <;> first | (simp [FragS] at h; done) | simp [prSW, prS]
+    simp only [prSsW, prSs, ih, e]
+
 theorem bodyLex_flat (body : List Stmt) (h : FragSs body = true) : BodyLex body :=
-  ⟨render_iSs 1 body h, itoks_iSs 1 body h, chain_iSs 1 body h⟩
+  ⟨render_iSs 1 body h, by rw [itoks_iSs 1 body h, prSsW_flat body h], chain_iSs 1 body h⟩
 
 theorem bodyLex_structured (body : List Stmt) (h : FragXs body = true) : BodyLex body :=
   ⟨render_iXs body h 1, itoks_iXs body h 1, chain_iXs body h 1⟩
